@@ -39,7 +39,7 @@ def bounds(tier):
 
 def _depth(tier, ci):
     if tier == "quick":
-        return {0: 2, 1: 1, 4: 1}.get(ci, 0)
+        return 2 if ci == 0 else 1
     return 4 if ci == 0 else 3
 
 
